@@ -504,13 +504,14 @@ def profTok (s : String) : Option (Option ExecProfile) :=
 def idTok (s : String) : Option (Option Bytes) :=
   if s == "N" then some none else (bytesTok s).map some
 
-/-- `<opcode>:<consistency>:<serial|->:<page size|->:<tracing bit>:<timestamp|->:<paging state|N>` of a QUERY/EXECUTE record. -/
+/-- `<opcode>:<consistency>:<serial|->:<page size|->:<tracing bit>:<timestamp|->:<paging state|N>:<skip_metadata>` of a
+QUERY / EXECUTE record. -/
 def glueFrame (op : Nat) (p : Params) (tracing : Bool) : String :=
   hex2 op ++ ":" ++ toString (consistencyCode p.consistency) ++ ":" ++
   (match p.serialConsistency with | some s => toString (serialConsistencyCode s) | none => "-") ++ ":" ++
   (match p.pageSize with | some v => toString v.toInt | none => "-") ++ ":" ++ (if tracing then "1" else "0") ++ ":" ++
   (match p.timestamp with | some v => toString v.toInt | none => "-") ++ ":" ++
-  (match p.pagingState with | some b => toHex b | none => "N")
+  (match p.pagingState with | some b => toHex b | none => "N") ++ ":" ++ (if p.skipMetadata then "1" else "0")
 
 def glueReqFrame (r : Req) (tracing : Bool) : String :=
   match r with
@@ -518,43 +519,82 @@ def glueReqFrame (r : Req) (tracing : Bool) : String :=
   | .execute _ _ p => glueFrame (opcode r) p tracing
   | _ => "?"
 
+/-- The token of a BATCH: the option fields read off the body with the independent parser, then the body itself. -/
+def glueBatchFrame (body : Bytes) (tracing : Bool) : String :=
+  match ReqParse.parseBody false 0x0D body with
+  | some (.batch _ _ c sc ts) =>
+    hex2 Generated.requestOpcode_Batch ++ ":" ++
+      toString (consistencyCode c) ++ ":" ++
+      (match sc with | some s => toString (serialConsistencyCode s) | none => "-") ++ ":-:" ++
+      (if tracing then "1" else "0") ++ ":" ++ (match ts with | some v => toString v | none => "-") ++ ":N:-:" ++ toHex body
+  | _ => "unparsable-batch-body"
+
+def selectText : Bytes := ascii "SELECT pk, v FROM ks.t WHERE pk = ?"
+def selectAllText : Bytes := ascii "SELECT pk, v FROM ks.t"
+def insertText : Bytes := ascii "INSERT INTO ks.t (pk, v) VALUES (?, ?)"
+def text2 : Bytes := ascii "INSERT INTO ks.t (pk, v) VALUES (0x00, 0)"
+
 def runGlue (f : List String) (impl : String) : String :=
   if impl.startsWith "e2e-skip" then impl   -- the session could not be built: nothing was judged
   else
   match f with
-  | [sc, ss, sp, genr, dn, dv, an, av, ci, op, c, ser, ts, tr, ps, pages] =>
+  | [sc, ss, sp, genr, dn, dv, an, av, ci, op, c, ser, ts, tr, ps, pages, via, uc, ids] =>
     match consistencyTok sc, serialOptTok ss, profTok sp, i64Tok genr, idTok dn, idTok dv, idTok an, idTok av, idTok ci,
-          cfgToks [c, ser, ts, tr], i32Tok ps, pages.toNat? with
-    | some sc, some ss, some sp, some genr, some dn, some dv, some an, some av, some ci, some cfg, some (some ps), some pages =>
-      if ps.toInt ≤ 0 || pages < 1 || pages > 20 then "bad-case"
+          cfgToks [c, ser, ts, tr], i32Tok ps, pages.toNat?, boolTok uc, (ids.splitOn ",").mapM bytesTok with
+    | some sc, some ss, some sp, some genr, some dn, some dv, some an, some av, some ci, some cfg, some (some ps),
+      some pages, some uc, some [id1, id2] =>
+      let plain := ["query_unpaged", "query_page", "query_iter", "queryv_unpaged", "queryv_page", "queryv_iter"]
+      let exec := ["execute_unpaged", "execute_page", "execute_iter"]
+      let okShape := (plain.contains op && via == "-" && !uc) ||
+        (exec.contains op && ["handle", "stmt", "cmiss", "chit"].contains via) ||
+        (op == "batch" && ["handle", "cmiss", "chit"].contains via && !uc)
+      if ps.toInt ≤ 0 || pages < 1 || pages > 20 || !okShape then "bad-case"
       else
         let sd : ExecProfile := ⟨sc, ss⟩
         let conn : ConnCtx := { defaultConsistency := .localQuorum, genTimestamp := genr, metadataIdExt := false }
         let ident : Identity := { driverName := dn, driverVersion := dv, applicationName := an, applicationVersion := av, clientId := ci }
         let identity := "identity=" ++ ",".intercalate ((sortPairs (identityOptions ident)).map
           (fun kv => toHex kv.1 ++ "=" ++ toHex kv.2))
-        let states : List Bytes := (List.range (pages - 1)).map (fun j => [UInt8.ofNat (j + 1)])
-        let info : PreparedInfo := { id := [], resultColCount := 2, resultMetadataId := none, useCachedResultMetadata := false }
-        let frames : Option (List String) :=
-          match op with
-          | "query_unpaged" => some [glueReqFrame (sessionQuery [] cfg sp sd conn .unpaged ps none) cfg.tracing]
-          | "query_page" => some [glueReqFrame (sessionQuery [] cfg sp sd conn .paged ps none) cfg.tracing]
-          | "query_iter" => some ((none :: states.map some).map (fun st =>
-              glueReqFrame (sessionQuery [] cfg sp sd conn .paged ps st) cfg.tracing))
-          | "execute_unpaged" => some [glueReqFrame (sessionExecute info [] cfg sp sd conn .unpaged ps none) cfg.tracing]
-          | "execute_page" => some [glueReqFrame (sessionExecute info [] cfg sp sd conn .paged ps none) cfg.tracing]
-          | "execute_iter" => some ((sessionIterExecutes info [] cfg sp sd conn ps states).map (fun r => glueReqFrame r cfg.tracing))
-          | "batch" =>
-            let prof := chosenProfile sp sd
-            some [glueFrame Generated.requestOpcode_Batch
-              { consistency := sessionConsistency cfg prof, serialConsistency := sessionSerial cfg prof,
-                timestamp := requestTimestamp cfg conn, pageSize := none, pagingState := none, skipMetadata := false,
-                values := [] } cfg.tracing]
-          | _ => none
-        match frames with
-        | some fr => (identity ++ " frames=" ++ toString fr.length ++ " " ++ " ".intercalate fr).trimAscii.toString
+        let kind := (op.splitOn "_").getLast?.getD ""
+        let iter := kind == "iter"
+        let m : Paging := if kind == "unpaged" then .unpaged else .paged
+        let states : List Bytes := if iter then (List.range (pages - 1)).map (fun j => [UInt8.ofNat (j + 1)]) else []
+        -- the SELECT's PREPARED answer: 2 result columns, no metadata id (extension off on the mock cluster)
+        let info : PreparedInfo := { id := [], resultColCount := 2, resultMetadataId := none, useCachedResultMetadata := uc }
+        let vals : List RawVal := [.val [1, 2]]
+        -- (tracing bit of the PREPARE frames, frames)
+        let res : Option (String × List String) :=
+          if op.startsWith "query_" then
+            some ("-", (none :: states.map some).map (fun st =>
+              glueReqFrame (sessionQuery selectAllText cfg sp sd conn m ps st) cfg.tracing))
+          else if op.startsWith "queryv_" then
+            -- PREPARE + EXECUTE(s) of the handle that inherited the statement's configuration
+            let rs := sessionPreparedFromStatement selectText info false vals cfg sp sd conn m ps states
+            some ((match rs.head? with | some (_, t) => if t then "1" else "0" | none => "-"),
+                  (rs.drop 1).map (fun x => glueReqFrame x.1 x.2))
+          else if op.startsWith "execute_" then
+            if via == "handle" then
+              -- a bare statement is prepared (untraced), the handle is configured afterwards
+              some ("0", (none :: states.map some).map (fun st =>
+                glueReqFrame (sessionExecute info vals cfg sp sd conn m ps st) cfg.tracing))
+            else
+              let rs := sessionPreparedFromStatement selectText info uc vals cfg sp sd conn m ps states
+              -- cache hit: no PREPARE in the judged call
+              some ((if via == "chit" then "-" else match rs.head? with | some (_, t) => if t then "1" else "0" | none => "-"),
+                    (rs.drop 1).map (fun x => glueReqFrame x.1 x.2))
+          else
+            -- BATCH: prepared INSERT with (pk, v) + a second statement without values; CachingSession prepares both
+            let stmts : List GlueStmt :=
+              if via == "handle" then [.prepared id1 2, .unprepared text2] else [.prepared id1 2, .prepared id2 0]
+            let rows : List (List RawVal) := [[.val [1, 2], .val [0, 0, 0, 5]], []]
+            match sessionBatchBody (fun _ => ([], 0)) .unlogged stmts rows cfg sp sd conn with
+            | .ok body => some ((if via == "chit" then "-" else "0"), [glueBatchFrame body cfg.tracing])
+            | .error _ => some ((if via == "chit" then "-" else "0"), [])
+        match res with
+        | some (ptr, fr) =>
+          (identity ++ " ptr=" ++ ptr ++ " frames=" ++ toString fr.length ++ " " ++ " ".intercalate fr).trimAscii.toString
         | none => "bad-case"
-    | _, _, _, _, _, _, _, _, _, _, _, _ => "bad-case"
+    | _, _, _, _, _, _, _, _, _, _, _, _, _, _ => "bad-case"
   | _ => "bad-case"
 
 end Sess
